@@ -230,7 +230,7 @@ class C17(core.Check):
         ("getitem", 12), ("setitem", 14), ("delitem", 6), ("contains", 5), ("get", 6),
         ("pop", 7), ("setdefault", 7), ("update", 10), ("construct", 4), ("len", 1),
         ("keys", 2), ("items", 1), ("iter", 1), ("eq", 3), ("copy", 8), ("nested_append", 5),
-        ("nested_set", 5), ("deep_mutate", 6), ("getitem_fault", 3), ("restart", 0), ("clear", 1), ("values", 1),
+        ("nested_set", 5), ("deep_mutate", 6), ("eq_plain", 2), ("to_dict", 1), ("getitem_fault", 3), ("restart", 0), ("clear", 1), ("values", 1),
     ]
 
     def generate(self, seed, tier):
@@ -278,8 +278,10 @@ class C17(core.Check):
             elif name == "construct":
                 pairs = [[r.choice(keys), self.gen_value(r, 1)] for _ in range(r.randint(0, 4))]
                 ops.append([name, r.choice(["none", "ci", "flaky"]), r.choice(["dict", "pairs", "kwargs", "member", "od", "iter", "gen"]), pairs, who])
-            elif name in ("len", "keys", "items", "iter", "clear", "values"):
+            elif name in ("len", "keys", "items", "iter", "clear", "values", "to_dict"):
                 ops.append([name, who])
+            elif name == "eq_plain":
+                ops.append([name, who, r.choice(["same", "same", "extra", "othervalue", "reordered"])])
             elif name == "eq":
                 ops.append([name, who, r.randrange(8)])
             elif name == "copy":
@@ -558,6 +560,37 @@ class C17(core.Check):
                 elif name == "items":
                     rr = core.call(lambda: self.norm_real([list(kv) for kv in real.items()]))
                     mr = core.call(lambda: self.norm_model([list(kv) for kv in model.d.items()]))
+                elif name == "to_dict":
+                    rr = core.call(lambda: self.norm_real(list(dict(real).items())))
+                    mr = core.call(lambda: self.norm_model(list(dict(model.d).items())))
+                    rr, mr = ("ok", rr[1], rr[2]), ("ok", mr[1], mr[2])
+                    if rr[2] != mr[2]:
+                        violation = viol("dict_conversion", op, {"real": rr[2], "model": mr[2]})
+                        break
+                    continue
+                elif name == "eq_plain":
+                    # equality with an ordinary dict holding the lower-cased keys (order does not matter for a plain dict)
+                    def plain(x):
+                        if isinstance(x, M):
+                            return {k_: plain(v_) for k_, v_ in x.d.items()}
+                        if isinstance(x, list):
+                            return [plain(v_) for v_ in x]
+                        return x
+
+                    other = plain(model)
+                    want_eq = True
+                    if op[2] == "extra":
+                        other["__extra__"] = 1
+                        want_eq = False
+                    elif op[2] == "othervalue":
+                        if other:
+                            k0 = next(iter(other))
+                            other[k0] = ("different", other[k0])
+                            want_eq = False
+                    elif op[2] == "reordered":
+                        other = dict(reversed(list(other.items())))
+                    rr = core.call(lambda: (real == other, real != other))
+                    mr = ("ok", None, (want_eq, not want_eq))
                 elif name == "clear":
                     rr = core.call(lambda: real.clear())
                     mr = core.call(lambda: model.d.clear())
